@@ -13,6 +13,7 @@ import (
 	codec "github.com/uhppoted/uhppote-core/encoding/UTO311-L0x"
 	"pgregory.net/rapid"
 
+	"verif/harness/batch"
 	"verif/harness/ev"
 	"verif/harness/fv"
 	"verif/harness/rp"
@@ -450,6 +451,20 @@ func decide(c layoutCase) *rp.Fail {
 			}
 		}
 	}
+	// ... and so are the address fields: appending to a decoded IP / MAC address (or to the 4-byte form of an IP) touches no
+	// other field of the same value
+	{
+		v := reflect.New(typ)
+		if codec.Unmarshal(append([]byte(nil), enc...), v.Interface()) == nil {
+			before := fv.CanonAll(v.Elem())
+			if fv.AppendAll(v.Elem()) > 0 {
+				ev.Class("decoded-values/appended-to-address-fields", 1)
+				if d := fv.FirstDiff(before, fv.CanonAll(v.Elem())); d != "" {
+					return rp.Failf(site+"/decoded-fields-share-capacity", "layout %s: appending to the decoded address fields of a value changed another field of the same value: %s", describe(c), d)
+				}
+			}
+		}
+	}
 	// UnmarshalAs
 	var as any
 	if p := try(func() { as, err = codec.UnmarshalAs(append([]byte(nil), enc...), reflect.New(typ).Elem().Interface()) }); p != nil || err != nil {
@@ -504,6 +519,11 @@ func decide(c layoutCase) *rp.Fail {
 		}
 	} else if err != nil {
 		return rp.Failf("codec.UnmarshalArray/error", "layout %s: UnmarshalArray of [m, zero, m] failed: %v", describe(c), err)
+	}
+	// ... elements share no memory, and a batch decoded earlier stays the caller's when the next one is decoded into the same
+	// variable or into an empty window of a larger array (harness/batch)
+	if f := batch.Check(typ, [][]byte{enc, zero}, "layout "+describe(c)); f != nil {
+		return f
 	}
 	// wrong function code / wrong fixed value must be rejected
 	site = "codec.Unmarshal"
